@@ -6,9 +6,11 @@
   Reading guide.  `enclS I v` is the inductive invariant (NaN only when flagged, non-NaN values inside
   the bounds); `encl I v := I.mn ∨ (v ≠ nan ∧ I.lo ≤ v ≤ I.hi)` is the property's statement and follows
   from it.  `BoostSound / Atan2Sound / ModSound` are the assumed contracts of the Boost / libm
-  primitives.  `SafeArgs op A B` is `True` for the opcodes whose libfive-authored flag logic is
-  complete and otherwise spells out the hypothesis that is missing on this tree; the `*_unsound`
-  theorems prove, with concrete witnesses, that those hypotheses cannot be dropped.
+  primitives.  The model mirrors the FIXED interval.hpp (fix commits f3afb29 a650b90 34669ce 6b977f5
+  d4c68d5 9cea0ae 0078f64 73663d7).  `SafeArgs op A B` is now `True` for every opcode except `pow` and
+  `nth_root` (integer constant exponent; two Boost corner cases, see `SafeArgs`).  The `*_unsound_old`
+  theorems at the end are about the PRE-FIX formulas (`…Old` definitions) and document why each fix
+  was needed.
 -/
 import LibfiveProofs.Interval3
 import Mathlib.Algebra.Order.Field.Rat
@@ -40,11 +42,10 @@ theorem op_enclosure_weak (hS : BoostSound Bo P) (hA2 : Atan2Sound Bo P) (hM : M
     encl (iop Bo op A B) r :=
   (op_enclosure hS hA2 hM op hsafe ha hb hr).encl
 
-/-- opcodes whose lemma needs no side condition on this tree -/
+/-- opcodes whose lemma needs no side condition: all but `pow` / `nth_root` -/
 def soundOp : Op → Bool
-  | .add | .mul | .min | .max | .div | .atan2 | .nanfill | .square | .sqrt | .neg | .asin | .acos
-  | .atan | .exp | .abs | .constVar => true
-  | _ => false
+  | .pow | .nthRoot => false
+  | _ => true
 
 theorem safeArgs_of_soundOp {op : Op} (h : soundOp op = true) (A B : IVal K) :
     SafeArgs Bo P op A B := by
@@ -53,9 +54,9 @@ theorem safeArgs_of_soundOp {op : Op} (h : soundOp op = true) (A B : IVal K) :
 /-- **tape_enclosure_partial.**  For every clause list (tape), every assignment of intervals and point
     values to the leaf slots with the point values enclosed (a box and a point of it, constants,
     variables), every resolution `pev` of the point kernel's choices and every oracle pair: if every
-    clause meets its side condition on the interval slots (`SafeTape`), then at every slot — in
-    particular the root — the interval evaluation encloses the point evaluation.
-    (Full statement without `SafeTape`: false on this tree, see `*_unsound` below.) -/
+    `pow` / `nth_root` clause meets its side condition on the interval slots (`SafeTape`; `True` for every
+    other opcode), then at every slot — in particular the root — the interval evaluation encloses the
+    point evaluation. -/
 theorem tape_enclosure_partial (hS : BoostSound Bo P) (hA2 : Atan2Sound Bo P) (hM : ModSound Bo P)
     (pev : Op → FVal K → FVal K → FVal K) (hpev : ∀ op a b, PointRel P op a b (pev op a b))
     (iorc : Nat → IVal K) (porc : Nat → FVal K) (horc : ∀ k, enclS (iorc k) (porc k))
@@ -74,8 +75,9 @@ theorem safeTape_of_soundOps (iorc : Nat → IVal K) (I0 : Nat → IVal K) :
     · exact absurd h1 ho
     · exact safeArgs_of_soundOp h1 _ _
 
-/-- **tape_enclosure** for tapes over the opcodes whose flag logic is complete
-    (`+ * min max / atan2 nanfill square sqrt neg asin acos atan exp abs`): unconditional. -/
+/-- **tape_enclosure**: unconditional for every tape without `pow` / `nth_root` clauses, i.e. over
+    `+ − * / min max atan2 mod nanfill compare square sqrt neg sin cos tan asin acos atan exp log abs
+    recip const-var` and oracles. -/
 theorem tape_enclosure (hS : BoostSound Bo P) (hA2 : Atan2Sound Bo P) (hM : ModSound Bo P)
     (pev : Op → FVal K → FVal K → FVal K) (hpev : ∀ op a b, PointRel P op a b (pev op a b))
     (iorc : Nat → IVal K) (porc : Nat → FVal K) (horc : ∀ k, enclS (iorc k) (porc k))
@@ -98,24 +100,34 @@ theorem leaf_enclosure {lo hi x : FVal K} (h1 : FVal.le lo x = true) (h2 : FVal.
     enclS (ileaf lo hi) x := leaf_enclS h1 h2
 theorem const_enclosure (c : FVal K) : enclS (ileaf c c) c := const_enclS c
 
-/-! ### The side conditions cannot be dropped: negations with concrete witnesses
-    (each witness is replayed on the real IntervalEvaluator + ArrayEvaluator by tools/checks/c02.py) -/
+/-! ### Why the fixes were needed: the PRE-FIX formulas are unsound (concrete witnesses)
+    `…Old` = the expression as it stood before the fix commit named in each docstring. -/
 
-/-- `operator-`: `[1,+∞] − [1,+∞]` is not flagged, `(+∞) − (+∞)` is NaN. -/
-theorem sub_unsound (Bo : BoostOps K) :
-    ∃ A B : IVal K, ∃ a b : FVal K, enclS A a ∧ enclS B b ∧ ¬ encl (isub Bo A B) (FVal.sub a b) := by
+/-- pre-fix `operator-` (before f3afb29): the second disjunct repeated the `−∞` test -/
+def isubOld (Bo : BoostOps K) (A B : IVal K) : IVal K :=
+  IVal.ofOld (Bo.sub A.b B.b)
+    (A.mn || B.mn || (A.lo.isNinf && B.lo.isNinf) || (A.hi.isNinf && B.hi.isNinf))
+
+/-- `[1,+∞] − [1,+∞]` was not flagged, `(+∞) − (+∞)` is NaN. -/
+theorem sub_unsound_old (Bo : BoostOps K) :
+    ∃ A B : IVal K, ∃ a b : FVal K, enclS A a ∧ enclS B b ∧ ¬ encl (isubOld Bo A B) (FVal.sub a b) := by
   refine ⟨⟨fin 1, pinf, false⟩, ⟨fin 1, pinf, false⟩, pinf, pinf, ?_, ?_, ?_⟩
   · exact Or.inr ⟨by simp, rfl, rfl⟩
   · exact Or.inr ⟨by simp, rfl, rfl⟩
   · rintro (h | h)
-    · simp [isub, FVal.isNinf] at h
+    · simp [isubOld, IVal.ofOld, FVal.isNinf] at h
     · exact h.1 rfl
 
-/-- `nth_root`: the 6th root of `[−1,1]` is not flagged (`6 & 2 ≠ 0`), the value at `−1` is NaN. -/
-theorem nthRoot_unsound (Bo : BoostOps K) (P : PointFns K)
+/-- pre-fix `nth_root` (before a650b90): `a.lower() <= 0 && !(bPt & 2)` -/
+def inthRootOld (Bo : BoostOps K) (A B : IVal K) : IVal K :=
+  IVal.ofOld (Bo.nthRoot A.b (Bo.toInt B.lo))
+    (A.mn || B.mn || (FVal.le A.lo zeroV && !(bit1 (Bo.toInt B.lo))))
+
+/-- the 6th root of `[−1,1]` was not flagged (`6 & 2 ≠ 0`), the value at `−1` is NaN. -/
+theorem nthRoot_unsound_old (Bo : BoostOps K) (P : PointFns K)
     (h6 : P.toInt? (6 : K) = some 6) (hti : Bo.toInt (fin (6 : K)) = 6) :
     ∃ A B : IVal K, ∃ a b : FVal K, enclS A a ∧ enclS B b ∧
-      ¬ encl (inthRoot Bo A B) (pointOp P Op.nthRoot a b) := by
+      ¬ encl (inthRootOld Bo A B) (pointOp P Op.nthRoot a b) := by
   refine ⟨⟨fin (-1), fin 1, false⟩, ⟨fin 6, fin 6, false⟩, fin (-1), fin 6, ?_, ?_, ?_⟩
   · exact Or.inr ⟨by simp, by simp [IVal.b], by simp [IVal.b]⟩
   · exact Or.inr ⟨by simp, by simp [IVal.b], by simp [IVal.b]⟩
@@ -123,53 +135,55 @@ theorem nthRoot_unsound (Bo : BoostOps K) (P : PointFns K)
       simp [pointOp, expOf, h6, pnthRoot, oddI]
     rw [hp]
     rintro (h | h)
-    · simp [inthRoot, hti, bit1] at h
+    · simp [inthRootOld, IVal.ofOld, hti, bit1] at h
     · exact h.1 rfl
 
-/-- `sin`, `cos`, `tan`: `[0,+∞]` is not flagged, the value at `+∞` is NaN. -/
-theorem sin_cos_tan_unsound (Bo : BoostOps K) (P : PointFns K) :
+/-- pre-fix `sin` / `cos` / `tan` (before 34669ce): only the operand's flag was copied -/
+def itrigOld (f : Bnd K → Bnd K) (A : IVal K) : IVal K := IVal.ofOld (f A.b) A.mn
+
+/-- `[0,+∞]` was not flagged, the value at `+∞` is NaN. -/
+theorem sin_cos_tan_unsound_old (Bo : BoostOps K) (P : PointFns K) :
     ∃ A : IVal K, ∃ a : FVal K, enclS A a ∧
-      ¬ encl (isin Bo A) (ptrig P.sin a) ∧ ¬ encl (icos Bo A) (ptrig P.cos a) ∧
-      ¬ encl (itan Bo A) (ptrig P.tan a) := by
+      ¬ encl (itrigOld Bo.sin A) (ptrig P.sin a) ∧ ¬ encl (itrigOld Bo.cos A) (ptrig P.cos a) ∧
+      ¬ encl (itrigOld Bo.tan A) (ptrig P.tan a) := by
   refine ⟨⟨fin 0, pinf, false⟩, pinf, Or.inr ⟨by simp, rfl, rfl⟩, ?_, ?_, ?_⟩ <;>
   · rintro (h | h)
-    · simp [isin, icos, itan] at h
+    · simp [itrigOld, IVal.ofOld] at h
     · exact h.1 rfl
 
-/-- `mod` with an infinite first operand: `mod([1,+∞],[1,2])` is not flagged, `mod(+∞, 1)` is NaN;
-    with an infinite second operand: `mod([1,2],[1,+∞])`, `mod(1, +∞)` is NaN. -/
-theorem mod_infinite_unsound (Bo : BoostOps K) (P : PointFns K) :
-    (∃ A B : IVal K, ∃ a b : FVal K, enclS A a ∧ enclS B b ∧ ¬ encl (imod Bo A B) (pmod P a b)) ∧
-    (∃ A B : IVal K, ∃ a b : FVal K, a ≠ pinf ∧ enclS A a ∧ enclS B b ∧
-      ¬ encl (imod Bo A B) (pmod P a b)) := by
+/-- pre-fix flag of `Interval::mod` (before 6b977f5): `b.upper() >= 0 && b.lower() <= 0` only -/
+def imodFlagOld (A B : IVal K) : Bool := FVal.ge B.hi zeroV && FVal.le B.lo zeroV
+
+/-- the old flag missed `mod(+∞, b)`, `mod(a, +∞)` and NaN operands (all NaN at the point). -/
+theorem mod_flag_unsound_old (P : PointFns K) :
+    (∃ A B : IVal K, ∃ a b : FVal K, enclS A a ∧ enclS B b ∧ pmod P a b = nan ∧
+      imodFlagOld A B = false ∧ a = pinf) ∧
+    (∃ A B : IVal K, ∃ a b : FVal K, enclS A a ∧ enclS B b ∧ pmod P a b = nan ∧
+      imodFlagOld A B = false ∧ b = pinf) ∧
+    (∃ A B : IVal K, ∃ a b : FVal K, enclS A a ∧ enclS B b ∧ pmod P a b = nan ∧
+      imodFlagOld A B = false ∧ a = nan) := by
   have h01 : ¬ ((1 : K) ≤ 0) := not_le.2 zero_lt_one
-  constructor
-  · refine ⟨⟨fin 1, pinf, false⟩, ⟨fin 1, fin 2, false⟩, pinf, fin 1, Or.inr ⟨by simp, rfl, rfl⟩,
-      Or.inr ⟨by simp, by simp [IVal.b], by simp [IVal.b]⟩, ?_⟩
-    rintro (h | h)
-    · simp [imod, zeroV, FVal.ge, h01] at h
-    · exact h.1 rfl
-  · refine ⟨⟨fin 1, fin 2, false⟩, ⟨fin 1, pinf, false⟩, fin 1, pinf, by simp,
-      Or.inr ⟨by simp, by simp [IVal.b], by simp [IVal.b]⟩, Or.inr ⟨by simp, rfl, rfl⟩, ?_⟩
-    rintro (h | h)
-    · simp [imod, zeroV, FVal.ge, h01] at h
-    · exact h.1 rfl
+  refine ⟨?_, ?_, ?_⟩
+  · exact ⟨⟨fin 1, pinf, false⟩, ⟨fin 1, fin 2, false⟩, pinf, fin 1, Or.inr ⟨by simp, rfl, rfl⟩,
+      Or.inr ⟨by simp, by simp [IVal.b], by simp [IVal.b]⟩, rfl,
+      by simp [imodFlagOld, zeroV, FVal.ge, h01], rfl⟩
+  · exact ⟨⟨fin 1, fin 2, false⟩, ⟨fin 1, pinf, false⟩, fin 1, pinf,
+      Or.inr ⟨by simp, by simp [IVal.b], by simp [IVal.b]⟩, Or.inr ⟨by simp, rfl, rfl⟩, rfl,
+      by simp [imodFlagOld, zeroV, FVal.ge, h01], rfl⟩
+  · exact ⟨⟨fin 0, fin 1, true⟩, ⟨fin 1, fin 1, false⟩, nan, fin 1, Or.inl ⟨rfl, rfl⟩,
+      Or.inr ⟨by simp, by simp [IVal.b], by simp [IVal.b]⟩, rfl,
+      by simp [imodFlagOld, zeroV, FVal.ge, h01], rfl⟩
 
-/-- `mod` drops the operands' flags: `mod([0,1]?, [1,1])` is not flagged, `mod(NaN, 1)` is NaN. -/
-theorem mod_flag_unsound (Bo : BoostOps K) (P : PointFns K) :
-    ∃ A B : IVal K, ∃ a b : FVal K, enclS A a ∧ enclS B b ∧ ¬ encl (imod Bo A B) (pmod P a b) := by
-  have h01 : ¬ ((1 : K) ≤ 0) := not_le.2 zero_lt_one
-  refine ⟨⟨fin 0, fin 1, true⟩, ⟨fin 1, fin 1, false⟩, nan, fin 1, Or.inl ⟨rfl, rfl⟩,
-    Or.inr ⟨by simp, by simp [IVal.b], by simp [IVal.b]⟩, ?_⟩
-  rintro (h | h)
-  · simp [imod, zeroV, FVal.ge, h01] at h
-  · exact h.1 rfl
+/-- pre-fix `Interval::compare` (before 9cea0ae): the operands' flags were ignored -/
+def icompareOld (A B : IVal K) : IVal K :=
+  if FVal.lt A.hi B.lo then ⟨negOneV, negOneV, false⟩
+  else if FVal.gt A.lo B.hi then ⟨oneV, oneV, false⟩
+  else ⟨negOneV, oneV, false⟩
 
-/-- `compare` drops the operands' flags: `compare([−10,−9]?, [0,0])` is `[−1,−1]` not flagged (FILLED),
-    the kernel returns `0` for a NaN operand. -/
-theorem compare_unsound :
-    ∃ A B : IVal K, ∃ a b : FVal K, enclS A a ∧ enclS B b ∧ ¬ encl (icompare A B) (pcompare a b) ∧
-      istate (icompare A B) = IState.filled := by
+/-- `compare([−10,−9]?, [0,0])` was `[−1,−1]` not flagged (FILLED); the kernel returns `0` for NaN. -/
+theorem compare_unsound_old :
+    ∃ A B : IVal K, ∃ a b : FVal K, enclS A a ∧ enclS B b ∧ ¬ encl (icompareOld A B) (pcompare a b) ∧
+      istate (icompareOld A B) = IState.filled := by
   have h1 : (-10 : K) ≤ -9 := by norm_num
   have h2 : (-9 : K) < 0 := by norm_num
   have h3 : ¬ ((0 : K) ≤ -1) := by norm_num
@@ -177,16 +191,17 @@ theorem compare_unsound :
   refine ⟨⟨fin (-10), fin (-9), true⟩, ⟨fin 0, fin 0, false⟩, nan, fin 0, Or.inl ⟨rfl, rfl⟩,
     Or.inr ⟨by simp, by simp [IVal.b], by simp [IVal.b]⟩, ?_, ?_⟩
   · rintro (h | h)
-    · simp [icompare, h2] at h
+    · simp [icompareOld, h2] at h
     · have := h.2.2
-      simp [icompare, h2, pcompare, FVal.gt, IVal.b, negOneV, h3] at this
-  · simp [icompare, h2, istate, FVal.gt, negOneV, zeroV, h4]
+      simp [icompareOld, h2, pcompare, FVal.gt, IVal.b, negOneV, h3] at this
+  · simp [icompareOld, h2, istate, FVal.gt, negOneV, zeroV, h4]
 
-/-- `recip` has no zero-crossing rule: there is a reciprocal primitive meeting Boost's contract (for
-    non-zero points) for which `recip([−1,0])` is `[−∞,0]`-sided and not flagged, while `1/(+0) = +∞`. -/
-theorem recip_unsound :
+/-- pre-fix `recip` (before 0078f64): `Interval(1.0f / a.i, a.maybe_nan)`, no zero-crossing rule.
+    There is a reciprocal primitive meeting Boost's contract (for non-zero points) for which
+    `recip([−1,0])` is one-sided and not flagged, while `1/(+0) = +∞`. -/
+theorem recip_unsound_old :
     ∃ od : Bnd K → Bnd K, (∀ X a, inBb X a → a ≠ fin 0 → inBb (od X) (precip a)) ∧
-      ∃ A : IVal K, ∃ a : FVal K, enclS A a ∧ ¬ encl (IVal.of (od A.b) A.mn) (precip a) := by
+      ∃ A : IVal K, ∃ a : FVal K, enclS A a ∧ ¬ encl (IVal.ofOld (od A.b) A.mn) (precip a) := by
   refine ⟨fun X => if FVal.le X.hi zeroV = true then ⟨ninf, fin 0⟩ else wholeB, ?_, ?_⟩
   · intro X a h h0
     by_cases c : FVal.le X.hi zeroV = true
@@ -208,9 +223,9 @@ theorem recip_unsound :
     · simp only [c]; exact inBb_whole (precip_ne_nan h.1)
   · refine ⟨⟨fin (-1), fin 0, false⟩, fin 0, Or.inr ⟨by simp, by simp [IVal.b], by simp [IVal.b]⟩, ?_⟩
     rintro (h | h)
-    · simp at h
+    · simp [IVal.ofOld] at h
     · have := h.2.2
-      simp [IVal.b, IVal.of, zeroV, precip, FVal.div, FVal.le] at this
+      simp [IVal.b, IVal.ofOld, zeroV, precip, FVal.div, FVal.le] at this
 
 /-! ### The hypotheses are satisfiable (non-degenerate intervals, `K = ℚ`) -/
 
@@ -225,11 +240,11 @@ def wholeOps : BoostOps ℚ :=
     cos := fun _ => wholeB, tan := fun _ => wholeB, asin := fun _ => wholeB,
     acos := fun _ => wholeB, atan := fun _ => wholeB, exp := fun _ => wholeB,
     log := fun _ => wholeB, oneDiv := fun _ => wholeB, powi := fun _ _ => wholeB,
-    nthRoot := fun _ _ => wholeB, mulNeg1 := fun _ => wholeB, mulInt := fun _ _ => wholeB,
+    nthRoot := fun _ _ => wholeB, mulNeg1 := fun _ => wholeB, mulF := fun _ _ => wholeB,
     empty := ⟨nan, nan⟩, atanWhole := wholeB, atan2f := fun _ _ => fin 0, pi := fin 4,
     negPi := fin (-4),
     toInt := fun v => match v with | fin q => ⌊q⌋ | _ => 0,
-    floorInt := fun v => match v with | fin q => ⌊q⌋ | _ => 0,
+    floorF := fun v => match v with | fin q => fin ((⌊q⌋ : Int) : ℚ) | w => w,
     nanOnZeroToNeg := false, powM1IsNan := fun _ => false }
 
 /-- point functions: any will do (the lemmas never look inside them) -/
@@ -285,8 +300,9 @@ theorem wholeOps_atan2 : Atan2Sound wholeOps exFns where
 
 theorem wholeOps_mod : ModSound wholeOps exFns where
   mulNeg1 := fun _ _ h => inBb_whole (neg_ne_nan h.1)
-  mulInt := fun _ _ _ _ h => inBb_whole h
-  floorInt := fun _ _ => rfl
+  mulF := fun _ _ _ _ h => inBb_whole h
+  floorF_fin := fun _ => rfl
+  floorF_finite := fun v h => by cases v <;> simp_all [wholeOps, FVal.isFinite]
   floor := fun _ => rfl
   ofInt := fun _ => rfl
 
@@ -304,7 +320,7 @@ example : enclS (iop wholeOps Op.add iA iB) (FVal.add (fin (3/2)) (fin 4)) :=
 example : enclS (iop wholeOps Op.mul iA iZ) (FVal.mul (fin (3/2)) nan) :=
   op_enclosure wholeOps_sound wholeOps_atan2 wholeOps_mod Op.mul trivial hA hZ (Or.inl rfl)
 example : enclS (iop wholeOps Op.sub iA iB) (FVal.sub (fin (3/2)) (fin 4)) :=
-  op_enclosure wholeOps_sound wholeOps_atan2 wholeOps_mod Op.sub (by simp [SafeArgs, iA]) hA hB (Or.inl rfl)
+  op_enclosure wholeOps_sound wholeOps_atan2 wholeOps_mod Op.sub trivial hA hB (Or.inl rfl)
 example : enclS (iop wholeOps Op.div iA iB) (FVal.div (fin (3/2)) (fin 4)) :=
   op_enclosure wholeOps_sound wholeOps_atan2 wholeOps_mod Op.div trivial hA hB (Or.inl rfl)
 example : enclS (iop wholeOps Op.min iA iZ) (pmin (fin (3/2)) nan) :=
@@ -316,14 +332,14 @@ example : enclS (iop wholeOps Op.nanfill iZ iB) (pnanfill nan (fin 4)) :=
 example : enclS (iop wholeOps Op.atan2 iA iB) (patan2 exFns (fin (3/2)) (fin 4)) :=
   op_enclosure wholeOps_sound wholeOps_atan2 wholeOps_mod Op.atan2 trivial hA hB (Or.inl rfl)
 example : enclS (iop wholeOps Op.compare iA iB) (pcompare (fin (3/2)) (fin 4)) :=
-  op_enclosure wholeOps_sound wholeOps_atan2 wholeOps_mod Op.compare ⟨rfl, rfl⟩ hA hB (Or.inl rfl)
+  op_enclosure wholeOps_sound wholeOps_atan2 wholeOps_mod Op.compare trivial hA hB (Or.inl rfl)
 example : enclS (iop wholeOps Op.sin iA iA) (ptrig exFns.sin (fin (3/2))) :=
-  op_enclosure wholeOps_sound wholeOps_atan2 wholeOps_mod Op.sin ⟨rfl, rfl⟩ hA hA (Or.inl rfl)
+  op_enclosure wholeOps_sound wholeOps_atan2 wholeOps_mod Op.sin trivial hA hA (Or.inl rfl)
 example : enclS (iop wholeOps Op.log iA iA) (plog exFns (fin (3/2))) :=
-  op_enclosure wholeOps_sound wholeOps_atan2 wholeOps_mod Op.log (by simp [SafeArgs, iA, zeroV]) hA hA (Or.inl rfl)
+  op_enclosure wholeOps_sound wholeOps_atan2 wholeOps_mod Op.log trivial hA hA (Or.inl rfl)
 example : enclS (iop wholeOps Op.recip iA iA) (precip (fin (3/2))) :=
   op_enclosure wholeOps_sound wholeOps_atan2 wholeOps_mod Op.recip
-    (by simp [SafeArgs, Ivl.hasZero, iA, zeroV]) hA hA (Or.inl rfl)
+    trivial hA hA (Or.inl rfl)
 example : enclS (iop wholeOps Op.sqrt iZ iZ) (psqrt exFns nan) :=
   op_enclosure wholeOps_sound wholeOps_atan2 wholeOps_mod Op.sqrt trivial hZ hZ (Or.inl rfl)
 
@@ -339,20 +355,21 @@ theorem k3' : wholeOps.toInt (fin (3 : ℚ)) = 3 := by
 
 example : enclS (iop wholeOps Op.pow iA iK) (pointOp exFns Op.pow (fin (3/2)) (fin 3)) :=
   op_enclosure wholeOps_sound wholeOps_atan2 wholeOps_mod Op.pow
-    ⟨3, 3, rfl, k3, k3', by norm_num, by norm_num⟩ hA hK (Or.inl rfl)
+    ⟨3, 3, rfl, k3, k3', by norm_num⟩ hA hK (Or.inl rfl)
 example : enclS (iop wholeOps Op.nthRoot iA iK) (pointOp exFns Op.nthRoot (fin (3/2)) (fin 3)) :=
   op_enclosure wholeOps_sound wholeOps_atan2 wholeOps_mod Op.nthRoot
-    ⟨3, 3, rfl, k3, k3', by norm_num, rfl, rfl, by simp [iA, zeroV, FVal.lt]⟩ hA hK (Or.inl rfl)
+    ⟨3, 3, rfl, k3, k3', by norm_num, rfl, rfl⟩ hA hK (Or.inl rfl)
 
-/-- `mod` with a divisor interval straddling zero (position 3) -/
+/-- `mod` with a positive divisor interval (position 1) and a zero-straddling one (position 3) -/
 def iS : IVal ℚ := ⟨fin (-1), fin 1, false⟩
 theorem hS' : enclS iS (fin (1/2)) := Or.inr ⟨by simp, by simp [iS, IVal.b]; norm_num, by simp [iS, IVal.b]; norm_num⟩
+example : enclS (iop wholeOps Op.mod iA iB) (pointOp exFns Op.mod (fin (3/2)) (fin 4)) :=
+  op_enclosure wholeOps_sound wholeOps_atan2 wholeOps_mod Op.mod trivial hA hB (Or.inl rfl)
 example : enclS (iop wholeOps Op.mod iA iS) (pointOp exFns Op.mod (fin (3/2)) (fin (1/2))) :=
-  op_enclosure wholeOps_sound wholeOps_atan2 wholeOps_mod Op.mod
-    ⟨rfl, rfl, rfl, rfl, rfl, rfl, by simp [Ivl.hasZero, iS, zeroV, FVal.ge]⟩ hA hS' (Or.inl rfl)
+  op_enclosure wholeOps_sound wholeOps_atan2 wholeOps_mod Op.mod trivial hA hS' (Or.inl rfl)
 
-/-- a two-clause tape `max(x + y, z)` with slots x=4 y=5 z=6 over the box, and `SafeTape` holds -/
-def exTape : TapeM := { t := [⟨Op.max, 1, 2, 6⟩, ⟨Op.add, 2, 4, 5⟩], root := 1 }
+/-- a three-clause tape `max(mod(x − y, y), z)` with slots x=4 y=5 z=6 over the box -/
+def exTape : TapeM := { t := [⟨Op.max, 1, 2, 6⟩, ⟨Op.mod, 2, 3, 5⟩, ⟨Op.sub, 3, 4, 5⟩], root := 1 }
 def exI0 : Nat → IVal ℚ := fun s => if s = 4 then iA else if s = 5 then iB else iS
 def exV0 : Nat → FVal ℚ := fun s => if s = 4 then fin (3/2) else if s = 5 then fin 4 else fin (1/2)
 theorem exLeaf : ∀ s, enclS (exI0 s) (exV0 s) := by
@@ -368,7 +385,7 @@ example : encl (ievalList wholeOps (fun _ => iS) exTape.t exI0 exTape.root)
     (evalList (pointOp exFns) (fun _ => fin (1/2)) exTape.t exV0 exTape.root) :=
   tape_enclosure wholeOps_sound wholeOps_atan2 wholeOps_mod (pointOp exFns) (fun _ _ _ => Or.inl rfl)
     (fun _ => iS) (fun _ => fin (1/2)) (fun _ => hS') exTape exI0 exV0 exLeaf
-    (by intro c hc; simp [exTape] at hc; rcases hc with rfl | rfl <;> simp [soundOp])
+    (by intro c hc; simp [exTape] at hc; rcases hc with rfl | rfl | rfl <;> simp [soundOp])
 
 end examples
 
